@@ -18,7 +18,7 @@ CACHE = os.path.join(VERIF, '.cache', 'search-target')
 HAS_SEARCH = {'C07', 'C09', 'C11', 'C10', 'C15', 'C16', 'C17', 'C18', 'C19'}
 
 
-def run_search(pid, only=None, timeout=3600):
+def run_search(pid, only=None, timeout=3600, scale=1):
     """build the search crate against the tree under check and run it; returns dict(status, checks:[...], cmd, wall_s, log)"""
     if pid not in HAS_SEARCH:
         return {'status': 'none', 'checks': []}
@@ -32,7 +32,7 @@ def run_search(pid, only=None, timeout=3600):
         lock = os.path.join(VERIF, 'search', 'Cargo.lock')
         if os.path.exists(lock):
             shutil.copy(lock, os.path.join(root, 'Cargo.lock'))
-        env = dict(os.environ, CARGO_NET_OFFLINE='true', CARGO_TARGET_DIR=CACHE)
+        env = dict(os.environ, CARGO_NET_OFFLINE='true', CARGO_TARGET_DIR=CACHE, VERIF_SEARCH_SCALE=str(scale))
         b = subprocess.run(['cargo', 'build', '--offline', '-q'], cwd=root, env=env, capture_output=True, text=True, timeout=timeout)
         if b.returncode != 0:
             return {'status': 'build-failed', 'checks': [], 'log': (b.stdout + b.stderr)[-3000:], 'wall_s': round(time.time() - t0, 1)}
@@ -47,7 +47,7 @@ def run_search(pid, only=None, timeout=3600):
                 except Exception:
                     pass
         st = 'ok' if p.returncode == 0 else ('failed' if p.returncode == 1 and checks else 'error')
-        return {'status': st, 'checks': checks, 'cmd': f'verif-search {pid}' + (f' --only {only}' if only else ''),
+        return {'status': st, 'checks': checks, 'scale': scale, 'cmd': f'VERIF_SEARCH_SCALE={scale} verif-search {pid}' + (f' --only {only}' if only else ''),
                 'wall_s': round(time.time() - t0, 1), 'log': p.stderr[-1500:]}
     finally:
         shutil.rmtree(root, ignore_errors=True)
